@@ -12,7 +12,7 @@ def run(ctx):
         "hand models coq/model/Grouping.v (pauli_label_to_bsv, bsv_bitwise_commute, _add_pauli_to_groups, greedy "
         "grouping; exact N arithmetic) and coq/model/Measure.v, tied to the code by vm_compute correspondence "
         "(corr_C07.py) and AST fingerprints",
-        "partial: the special all-X/Y/Z and identity groups of bitwise_pauli_grouping, individual grouping, the numpy "
+        "partial: the numpy "
         "argsort of sorted-injection on Operators (any permutation is covered by the theorem), CachedMeasurementFactory "
         "and unitarity of V (so that V P = Z V gives V P V^dagger = Z) are decided by the dense sweep",
     ]
